@@ -60,4 +60,6 @@ theorem ReadOnly.attrOrCrash {α} (o : Option α) (site : String) : ReadOnly (at
   | none => cases e
   | some x => cases e; rfl
 
+attribute [irreducible] Pres
+
 end PycModel
